@@ -483,6 +483,11 @@ func (i *interpreter) concreteInputs(model map[string]uint64) ([]InputRec, map[s
 		out[k] = o
 	}
 	env := map[string]string{}
+	for k, v := range p.extra {
+		if len(k) > 9 && k[:9] == "envfixed:" {
+			env[k[9:]] = v.(string)
+		}
+	}
 	for name, ts := range p.envLog {
 		var sb []byte
 		for _, t := range ts {
